@@ -82,6 +82,16 @@ CLAIMED = {
          'queued datapoints (conservation per event); stop closes only after the queue is flushed; bounded liveness '
          'after faults stop. One known finding (fractional hard limit).',
     ref='6 (C07)'),
+  'C08': dict(
+    technique=TECH + 'aggregation pipeline of a booted carbon-aggregator on the virtual clock: arrivals (late, '
+    'duplicate, out-of-order, very old, future-stamped) interleaved with per-series flush ticks, tie order from the '
+    'run\'s choices, clock stalls over several periods; oracle = reference lists per series+interval',
+    text='Generated rules from the documented pattern language with every method, MAX_AGGREGATION_INTERVALS 1..5, '
+         'WRITE_BACK_FREQUENCY, name cache off/LRU/TTL, FORWARD_ALL on/off. Every emission must equal the rule '
+         'function over a suffix of the values received for its interval that includes everything since the last '
+         'emission (all of them inside the retention horizon); re-emission only on new data; <= MAX+2 buffers after a '
+         'flush; idle series and their timers released; pass-through exactly once; whole-name matching.',
+    ref='6 (C08)'),
   'C09': dict(
     technique=TECH + 'bounded-liveness oracle at quiescence over seeded interleavings of the storing thread, the '
     'writer thread and receiver connect/disconnect events around the cache watermarks',
